@@ -10,6 +10,7 @@ import (
 	"context"
 	"encoding/json"
 	"fmt"
+	"runtime/debug"
 	"sort"
 	"strings"
 	"time"
@@ -25,7 +26,9 @@ type scenario struct {
 	M       string   `json:"m"`
 	U       string   `json:"u"`
 	OS      string   `json:"os"`
+	OSP     string   `json:"osp"`
 	DS      string   `json:"ds"`
+	DSP     string   `json:"dsp"`
 	Down    string   `json:"down"`
 	Body    string   `json:"body"`
 	Style   string   `json:"style"`
@@ -76,6 +79,12 @@ func (s *scenario) scenarioKey() string {
 	if s.DS == "invalid" {
 		k += "/destname=invalid"
 	}
+	if s.OSP == "mixed" {
+		k += "/originspelling=mixed"
+	}
+	if s.DSP == "mixed" {
+		k += "/destspelling=mixed"
+	}
 	if s.Style != "canon" {
 		k += "/style=" + s.Style
 	}
@@ -84,23 +93,34 @@ func (s *scenario) scenarioKey() string {
 
 var methods = []string{"GET", "PUT", "POST", "DELETE"}
 
-func replay(seed int64, raw json.RawMessage) hx.Result {
+func replay(seed int64, raw json.RawMessage) (res hx.Result) {
 	var s scenario
 	if err := json.Unmarshal(raw, &s); err != nil {
-		panic(err)
+		machinery(err.Error())
 	}
 	p := newPicker(seed, raw)
 	sort.Strings(s.Tampers)
-	nt := fmt.Sprintf("%s|%s|%s|%s|%s|os=%s|ds=%s|%s|%v", strings.Join(s.Tampers, "+"), s.Body, s.Down, s.Cfg, s.KV, s.OS, s.DS, s.Style, s.Accept)
+	nt := fmt.Sprintf("%s|%s|%s|%s|%s|os=%s/%s|ds=%s/%s|%s|%v", strings.Join(s.Tampers, "+"), s.Body, s.Down, s.Cfg, s.KV, s.OS, s.OSP, s.DS, s.DSP, s.Style, s.Accept)
 	fail := func(stage, what string, want, got interface{}) hx.Result {
 		return hx.Result{OK: false, NT: nt, Key: "C13/" + stage + "/" + s.scenarioKey(), What: what, Want: want, Got: got}
 	}
+	// a panic of the library is a verdict (refusal must not be a crash); give it the scenario as its key
+	defer func() {
+		if r := recover(); r != nil {
+			st := string(debug.Stack())
+			if len(st) > 2400 {
+				st = st[:2400]
+			}
+			res = hx.Result{OK: false, NT: nt, Key: "C13/panic/" + s.scenarioKey(), Panic: fmt.Sprint(r),
+				What: fmt.Sprintf("panic: %v (tamperings %v)\n%s", r, s.Tampers, st)}
+		}
+	}()
 
 	// ---- concrete values of the abstract classes
-	origin := pick(p, "origin", originNames[s.OS])
-	primary := destP[s.DS]
-	secondary := destS[s.DS]
-	foreign := pick(p, "foreign", destF[s.DS])
+	origin := spell(pick(p, "origin", originNames[s.OS]), s.OSP)
+	primary := spell(destP[s.DS], s.DSP)
+	secondary := spell(destS[s.DS], s.DSP)
+	foreign := spell(pick(p, "foreign", destF[s.DS]), s.DSP)
 	dest := map[string]string{"P": primary, "S": secondary, "F": foreign}[s.Down]
 	uri := pick(p, "uri", uris[s.U])
 	keyID := pick(p, "keyid", keyIDs)
@@ -153,7 +173,7 @@ func replay(seed int64, raw json.RawMessage) hx.Result {
 	}
 	w, err := parseWire(buf.Bytes())
 	if err != nil {
-		panic(err)
+		machinery(err.Error())
 	}
 	auth, ok := w.get("Authorization")
 	if !ok {
@@ -170,6 +190,7 @@ func replay(seed int64, raw json.RawMessage) hx.Result {
 
 	// ---- Tamper: on the transmitted text
 	second := false
+	secondCase := false
 	dup := false
 	bearer := false
 	nohdr := false
@@ -190,6 +211,23 @@ func replay(seed int64, raw json.RawMessage) hx.Result {
 		case "origin":
 			v := otherOrigin
 			x.origin = &v
+		case "origin_case":
+			v := caseVariant(origin)
+			if v == origin {
+				machinery("no other spelling of origin " + origin)
+			}
+			x.origin = &v
+		case "dest_case":
+			v := caseVariant(*x.dest)
+			if v == *x.dest {
+				machinery("no other spelling of destination " + v)
+			}
+			x.dest = &v
+		case "second_case":
+			if caseVariant(origin) == origin {
+				machinery("no other spelling of origin " + origin)
+			}
+			secondCase = true
 		case "drop_origin":
 			x.origin = nil
 		case "dest_local":
@@ -263,7 +301,7 @@ func replay(seed int64, raw json.RawMessage) hx.Result {
 		case "extra_bearer":
 			bearer = true
 		default:
-			panic("unknown tampering " + t)
+			machinery("unknown tampering " + t)
 		}
 	}
 	w.del("Authorization")
@@ -282,11 +320,17 @@ func replay(seed int64, raw json.RawMessage) hx.Result {
 			y.origin = &v
 			w.headers = append(w.headers, hline{"Authorization", y.render(s.Style)})
 		}
+		if secondCase {
+			y := *x
+			v := caseVariant(origin)
+			y.origin = &v
+			w.headers = append(w.headers, hline{"Authorization", y.render(s.Style)})
+		}
 	}
 	sreq, err := w.serverRequest()
 	if err != nil {
 		// the tampered text is not HTTP any more: a harness matter, never a verdict
-		panic(fmt.Sprintf("http.ReadRequest rejects the transmitted text: %v\n%q", err, w.bytes()))
+		machinery(fmt.Sprintf("http.ReadRequest rejects the transmitted text: %v\n%q", err, w.bytes()))
 	}
 
 	// ---- Receive: the real receiver
@@ -294,6 +338,14 @@ func replay(seed int64, raw json.RawMessage) hx.Result {
 	hour := time.Hour
 	db := &memDB{m: map[gmsl.PublicKeyLookupRequest]gmsl.PublicKeyLookupResult{}}
 	put := func(name, id string, key []byte, validUntil, expired time.Time) {
+		if name == origin && caseVariant(origin) != origin {
+			// the origin's key is also filed under the other spelling of its name: a header that spells the
+			// origin differently is refused by the signature, not by a missing key
+			defer func(v string) {
+				db.m[gmsl.PublicKeyLookupRequest{ServerName: spec.ServerName(v), KeyID: gmsl.KeyID(id)}] =
+					db.m[gmsl.PublicKeyLookupRequest{ServerName: spec.ServerName(name), KeyID: gmsl.KeyID(id)}]
+			}(caseVariant(origin))
+		}
 		r := gmsl.PublicKeyLookupResult{VerifyKey: gmsl.VerifyKey{Key: spec.Base64Bytes(key)}}
 		if !validUntil.IsZero() {
 			r.ValidUntilTS = spec.AsTimestamp(validUntil)
@@ -318,7 +370,7 @@ func replay(seed int64, raw json.RawMessage) hx.Result {
 	case "wrongkey":
 		put(origin, keyID, pubOther, now.Add(2*hour), zero)
 	default:
-		panic("unknown key validity " + s.KV)
+		machinery("unknown key validity " + s.KV)
 	}
 	put(otherOrigin, keyID, pubOther, now.Add(2*hour), zero)
 	if keyOtherKnown {
@@ -333,13 +385,13 @@ func replay(seed int64, raw json.RawMessage) hx.Result {
 			isLocal = func(n spec.ServerName) bool { return string(n) == primary }
 		}
 	case "multi":
-		local := map[string]bool{primary: true, secondary: true}
+		local := map[string]bool{primary: true, secondary: true, caseVariant(primary): true, caseVariant(secondary): true}
 		for _, n := range extraLocal {
 			local[n] = true
 		}
 		isLocal = func(n spec.ServerName) bool { return local[string(n)] }
 	default:
-		panic("unknown receiver configuration " + s.Cfg)
+		machinery("unknown receiver configuration " + s.Cfg)
 	}
 	got, resp := fclient.VerifyHTTPRequest(sreq, now, spec.ServerName(primary), isLocal, ring)
 	accepted := resp.Code == 200 && got != nil
@@ -362,7 +414,7 @@ func replay(seed int64, raw json.RawMessage) hx.Result {
 	wantO := map[string]string{"O": origin, "O2": otherOrigin}[s.Rep.O]
 	wantD := map[string]string{"P": primary, "S": secondary, "F": foreign, "F2": destF2}[s.Rep.D]
 	if s.Rep.M != "M" || s.Rep.U != "U" || wantO == "" || wantD == "" {
-		panic("record reports values that were not signed: " + string(raw))
+		machinery("record reports values that were not signed: " + string(raw))
 	}
 	var bad []string
 	if got.Method() != wantM {
@@ -387,7 +439,7 @@ func replay(seed int64, raw json.RawMessage) hx.Result {
 			bad = append(bad, fmt.Sprintf("content %q want JSON value of %q", clip(string(got.Content())), clip(body)))
 		}
 	default:
-		panic("record reports a body that was not signed: " + string(raw))
+		machinery("record reports a body that was not signed: " + string(raw))
 	}
 	if len(bad) > 0 {
 		return fail("reported", "accepted, but reports "+strings.Join(bad, "; ")+": "+desc(), "signed fields", bad)
